@@ -128,8 +128,9 @@ impl<R: Records, S> DatasetBase<R, S> {
 impl<X, Y> Dataset<X, Y> {
     // Convert 2D targets to 1D. Only works for targets with shape of form [X, 1], panics otherwise.
     pub fn into_single_target(self) -> Dataset<X, Y, Ix1> {
-        let nsamples = self.records.nsamples();
-        let targets = self.targets.into_shape(nsamples).unwrap();
+        // taking the only column also works for target arrays that are not contiguous
+        assert_eq!(self.targets.ncols(), 1, "targets are not of shape [X, 1]");
+        let targets = self.targets.index_axis_move(Axis(1), 0);
         let features = self.records;
         Dataset::new(features, targets)
     }
